@@ -609,10 +609,591 @@ mod iup {
     }
 }
 
+mod reader {
+    //! skrifa `interpolate_deltas::<i32, Fixed>` (via the verif hook) vs the loop-faithful 16.16
+    //! model `readerInterpolate`; oracle: the result is the specification's inference (exact
+    //! rationals, written independently in `iup::infer_contour`) up to the 16.16 rounding of the
+    //! interpolation scale.
+    use super::*;
+    use read_fonts::types::{Fixed, Point};
+    use skrifa::outline::verif_hooks::interpolate_deltas_fixed;
+
+    pub struct Case { pub pts: Vec<(i32, i32)>, pub has: Vec<bool>, pub ends: Vec<u16>, pub out: Vec<(i32, i32)> }
+
+    fn fmt(v: &[(i32, i32)]) -> String {
+        join(&v.iter().map(|p| format!("{},{}", p.0, p.1)).collect::<Vec<_>>())
+    }
+
+    impl Case {
+        pub fn req(&self) -> String {
+            format!("iup.read | {} | {} | {} | {}", join(&self.ends), fmt(&self.pts),
+                join(&self.has.iter().map(|b| *b as u8).collect::<Vec<_>>()), fmt(&self.out))
+        }
+    }
+
+    pub fn run_real(c: &Case) -> Result<Option<Vec<(i32, i32)>>, String> {
+        let pts: Vec<Point<i32>> = c.pts.iter().map(|p| Point::new(p.0, p.1)).collect();
+        let mut out: Vec<Point<Fixed>> = c.out.iter().map(|p| Point::new(Fixed::from_bits(p.0), Fixed::from_bits(p.1))).collect();
+        let has = c.has.clone();
+        let ends = c.ends.clone();
+        catch(move || {
+            let ok = interpolate_deltas_fixed(&pts, &has, &ends, &mut out);
+            ok.then(|| out.iter().map(|p| (p.x.to_bits(), p.y.to_bits())).collect())
+        })
+    }
+
+    fn gen(rng: &mut Rng, weird: bool, wrap: bool) -> Case {
+        let ncont = 1 + rng.below(3) as usize;
+        let mut pts = vec![];
+        let mut has = vec![];
+        let mut ends: Vec<u16> = vec![];
+        let scalar: i64 = match rng.below(4) { 0 | 1 => 0x10000, 2 => 0x8000, _ => 1 + rng.below(0x10000) as i64 };
+        let mut out = vec![];
+        for _ in 0..ncont {
+            let n = match rng.below(8) { 0 => 1, 1 => 2, 2 => 3, 3 => 20 + rng.below(30) as usize, _ => 3 + rng.below(10) as usize };
+            let style = rng.below(4);
+            let density = rng.below(6);
+            let (mut x, mut y) = (rng.range(-300, 300), rng.range(-300, 300));
+            let only = rng.below(n as u64) as usize;
+            let two = rng.below(n as u64) as usize;
+            for i in 0..n {
+                match style {
+                    0 => { x = rng.range(0, 3) * 10; y = rng.range(0, 3) * 10; }
+                    1 => { x += rng.range(-40, 40); y += rng.range(-40, 40); }
+                    2 => { x += rng.range(0, 60); if rng.chance(1, 3) { y += rng.range(-64, 64); } }
+                    _ => { x = rng.range(-1000, 1000); y = *rng.pick(&[0, 0, 16, 32, 64, 128]); }
+                }
+                if wrap && rng.chance(1, 4) { x = rng.range(-70000, 70000); }
+                let h = match density { 0 => false, 1 => i == only, 2 => i == only || i == two, 3 => true, 4 => rng.chance(1, 2), _ => rng.chance(1, 4) };
+                pts.push((x as i32, y as i32));
+                has.push(h);
+                let fx = |v: i64| ((v as i32) << 16) as i64;
+                if h {
+                    let (dx, dy) = (rng.range(-60, 60), rng.range(-60, 60));
+                    // `Fixed::from_i32(delta) * scalar` as in accumulate_sparse_deltas
+                    let m = |d: i64| { let ab = (d << 16) * scalar; (ab + 0x8000 - (ab < 0) as i64) >> 16 };
+                    out.push(((fx(x) + m(dx)) as i32, (fx(y) + m(dy)) as i32));
+                } else {
+                    out.push((fx(x) as i32, fx(y) as i32));
+                }
+            }
+            ends.push((pts.len() - 1) as u16);
+        }
+        // phantom points: never part of a contour
+        for i in 0..4 {
+            pts.push((if i == 1 { 500 } else { 0 }, 0));
+            let h = rng.chance(1, 3);
+            has.push(h);
+            out.push(((pts[pts.len() - 1].0 << 16) + if h { 0x30000 } else { 0 }, 0));
+        }
+        if weird {
+            match rng.below(4) {
+                0 => { let k = rng.below(ends.len() as u64) as usize; let e = ends[k]; ends.insert(k, e); }
+                1 => ends.reverse(),
+                2 => { let l = ends.len() - 1; ends[l] = (pts.len() + rng.below(3) as usize) as u16; }
+                _ => { ends.push((pts.len() - 1) as u16); }
+            }
+        }
+        Case { pts, has, ends, out }
+    }
+
+    pub fn check(s: &mut Session, c: &Case, well_formed: bool) {
+        let real = run_real(c);
+        s.oracle("interpolate-deltas-no-panic", real.is_ok(), || c.req(), || format!("{real:?}"));
+        let canon = match &real { Ok(Some(v)) => fmt(v), Ok(None) => "none".into(), Err(_) => "trap".into() };
+        s.case("skrifa interpolate_deltas", c.req(), canon.clone());
+        let Ok(Some(got)) = real else { s.count("reader:none"); return };
+        if !well_formed { return; }
+        // ---- oracle: explicit points and points outside every contour are untouched; inferred
+        // points carry the specification's inference (exact, independent) up to 16.16 rounding
+        let n = c.pts.len();
+        let mut in_contour = vec![false; n];
+        let mut start = 0usize;
+        for &e in &c.ends {
+            let e = e as usize;
+            let cs: Vec<iup::P> = c.pts[start..=e].iter().map(|p| ((p.0 as i64) << 16, (p.1 as i64) << 16)).collect();
+            let ds: Vec<iup::P> = (start..=e).map(|k| (c.out[k].0 as i64 - ((c.pts[k].0 as i64) << 16), c.out[k].1 as i64 - ((c.pts[k].1 as i64) << 16))).collect();
+            let keep = &c.has[start..=e];
+            let span = |f: fn(&(i32, i32)) -> i32| { let v: Vec<i32> = c.pts[start..=e].iter().map(f).collect(); (*v.iter().max().unwrap() as i64 - *v.iter().min().unwrap() as i64) / 2 + 2 };
+            let (bx, by) = (span(|p| p.0), span(|p| p.1));
+            let kept = keep.iter().filter(|b| **b).count();
+            s.count(&format!("reader:contour-deltas~{}", match kept { 0 => "0", 1 => "1", 2 => "2", _ if kept == keep.len() => "all", _ => "3+" }));
+            for (i, inf) in iup::infer_contour(&cs, &ds, keep).iter().enumerate() {
+                let k = start + i;
+                in_contour[k] = true;
+                let real_d = (got[k].0 as i64 - cs[i].0, got[k].1 as i64 - cs[i].1);
+                match inf {
+                    None => s.oracle("reader-explicit-untouched", got[k] == c.out[k], || c.req(), || format!("point {k}: {:?} -> {:?}", c.out[k], got[k])),
+                    Some((ix, iy)) => {
+                        let okx = (real_d.0 as i128 * ix.1 - ix.0).abs() <= bx as i128 * ix.1;
+                        let oky = (real_d.1 as i128 * iy.1 - iy.0).abs() <= by as i128 * iy.1;
+                        s.oracle("reader-infers-spec", okx && oky, || c.req(),
+                            || format!("point {k}: reader delta bits {real_d:?}, specification {ix:?} {iy:?} (16.16 bits), allowance {bx} {by}"));
+                    }
+                }
+            }
+            start = e + 1;
+        }
+        for k in 0..n {
+            if !in_contour[k] {
+                s.oracle("reader-outside-contours-untouched", got[k] == c.out[k], || c.req(), || format!("point {k}"));
+            }
+        }
+    }
+
+    pub fn run(cfg: &Config, s: &mut Session, rng: &mut Rng) {
+        // the spec's own example and the module's tests
+        let spec = Case { pts: vec![(245, 630), (260, 700), (305, 680)], has: vec![true, false, true], ends: vec![2],
+            out: vec![((245 + 28) << 16, (630 - 62) << 16), (260 << 16, 700 << 16), ((305 - 42) << 16, (680 - 57) << 16)] };
+        check(s, &spec, true);
+        let n = if cfg.thorough() { 200_000 } else { 20_000 };
+        for i in 0..n {
+            let weird = i % 12 == 0;
+            let wrap = i % 50 == 7;
+            let c = gen(rng, weird, wrap);
+            s.count(if weird { "reader:weird-contours" } else if wrap { "reader:wrapping-coords" } else { "reader:well-formed" });
+            check(s, &c, !weird && !wrap);
+        }
+    }
+}
+
+mod e2e {
+    //! write-fonts `GlyphVariations`/`Gvar::new` -> bytes -> read-fonts `Gvar` -> skrifa draw.
+    //! Correspondence: offsets array / data layout vs Model/GvarLayout.lean; reader range
+    //! resolution on crafted headers.  Oracles: every glyph's offsets resolve to its own data;
+    //! read-back tuples carry the builder's regions and (all | exactly the required) deltas;
+    //! specification inference on the read-back deltas reproduces required deltas exactly and
+    //! optional ones within the tolerance iup_delta_optimize was given; the drawn outline is
+    //! default + sum(scalar * delta) up to the scaler's rounding.
+    use super::*;
+    use font_types::{F2Dot14, GlyphId};
+    use kurbo::{Point as KPoint, Vec2};
+    use read_fonts::{FontData, FontRead, FontRef};
+    use skrifa::MetadataProvider;
+    use write_fonts::tables::glyf::{Bbox, Contour, GlyfLocaBuilder, Glyph, SimpleGlyph};
+    use write_fonts::tables::gvar::{iup::iup_delta_optimize, GlyphDelta, GlyphDeltas, GlyphVariations, Gvar, Tent};
+    use read_fonts::tables::glyf::CurvePoint;
+
+    #[derive(Clone, Debug)]
+    pub struct Tup { pub tents: Vec<(i16, Option<(i16, i16)>)>, pub deltas: Vec<(i16, i16)>, pub req: Vec<bool>, pub tol: Option<(i64, i64)> }
+    #[derive(Clone, Debug)]
+    pub struct Gl { pub contours: Vec<Vec<(i16, i16)>>, pub tuples: Vec<Tup> }
+
+    impl Gl {
+        fn points(&self) -> Vec<(i16, i16)> { self.contours.iter().flatten().copied().collect() }
+        fn ends(&self) -> Vec<usize> { let mut v = vec![]; let mut n = 0; for c in &self.contours { n += c.len(); v.push(n - 1); } v }
+    }
+
+    fn describe(glyphs: &[Gl], axes: usize) -> String {
+        let mut out = format!("axes={axes}");
+        for (i, g) in glyphs.iter().enumerate() {
+            out += &format!(" | g{i} contours={:?}", g.contours);
+            for t in &g.tuples {
+                out += &format!(" tuple tents={:?} tol={:?} deltas={:?} req={}", t.tents, t.tol, t.deltas,
+                    t.req.iter().map(|b| if *b { '1' } else { '0' }).collect::<String>());
+            }
+        }
+        out
+    }
+
+    /// exact tent scalar at `loc` (F2Dot14 bits), OpenType "calculation of the scalar"; (num, den)
+    fn scalar(tents: &[(i16, Option<(i16, i16)>)], loc: &[i16]) -> (i128, i128) {
+        let (mut num, mut den) = (1i128, 1i128);
+        for (i, (peak, inter)) in tents.iter().enumerate() {
+            let (peak, v) = (*peak as i128, loc[i] as i128);
+            if peak == 0 || v == peak { continue; }
+            let (start, end) = match inter { Some((a, b)) => (*a as i128, *b as i128), None => (peak.min(0), peak.max(0)) };
+            if v <= start || v >= end { return (0, 1); }
+            if v < peak { num *= v - start; den *= peak - start; } else { num *= end - v; den *= end - peak; }
+        }
+        (num, den)
+    }
+
+    struct PtPen(Vec<(f32, f32)>, usize);
+    impl skrifa::outline::OutlinePen for PtPen {
+        fn move_to(&mut self, x: f32, y: f32) { self.0.push((x, y)); }
+        fn line_to(&mut self, x: f32, y: f32) { self.0.push((x, y)); }
+        fn quad_to(&mut self, _: f32, _: f32, _: f32, _: f32) { self.1 += 1; }
+        fn curve_to(&mut self, _: f32, _: f32, _: f32, _: f32, _: f32, _: f32) { self.1 += 1; }
+        fn close(&mut self) {}
+    }
+
+    fn gen_tents(rng: &mut Rng, axes: usize, pool: &mut Vec<Vec<(i16, Option<(i16, i16)>)>>) -> Vec<(i16, Option<(i16, i16)>)> {
+        if !pool.is_empty() && rng.chance(1, 2) { return rng.pick(pool).clone(); }
+        let mut t: Vec<(i16, Option<(i16, i16)>)> = vec![(0, None); axes];
+        let k = rng.below(axes as u64) as usize;
+        for (i, slot) in t.iter_mut().enumerate() {
+            if i == k || rng.chance(1, 3) {
+                let peak: i16 = *rng.pick(&[16384, -16384, 8192, -8192, 4096, 12288, -4915, 1]);
+                let inter = if rng.chance(1, 4) {
+                    let (lo, hi) = if peak > 0 { (0i32, 16384i32) } else { (-16384, 0) };
+                    let a = rng.range(lo as i64, peak as i64) as i16;
+                    let b = rng.range(peak as i64, hi as i64) as i16;
+                    Some((a, b))
+                } else { None };
+                *slot = (peak, inter);
+            }
+        }
+        pool.push(t.clone());
+        t
+    }
+
+    fn gen_glyph(rng: &mut Rng, axes: usize, pool: &mut Vec<Vec<(i16, Option<(i16, i16)>)>>, big: bool) -> Gl {
+        let ncont = if big { 2 } else { 1 + rng.below(3) as usize };
+        let mut contours = vec![];
+        for _ in 0..ncont {
+            let span = if rng.chance(1, 6) { 60 } else { 9 };
+            let n = if big { 150 + rng.below(100) as usize } else { 3 + rng.below(span) as usize };
+            let (mut x, mut y) = (rng.range(0, 400), rng.range(0, 400));
+            let style = rng.below(3);
+            let mut c = vec![];
+            for i in 0..n {
+                match style {
+                    0 => { x = rng.range(0, 5) * 100; y = rng.range(0, 5) * 100; }
+                    1 => { if i % 2 == 0 { x += rng.range(-120, 120); } else { y += rng.range(-120, 120); } }
+                    _ => { x += rng.range(0, 80); y += rng.range(-64, 64); }
+                }
+                c.push((x.clamp(-2000, 2000) as i16, y.clamp(-2000, 2000) as i16));
+            }
+            contours.push(c);
+        }
+        let npts: usize = contours.iter().map(|c| c.len()).sum();
+        let ntup = match rng.below(6) { 0 => 0, 1 => 1, _ => 1 + rng.below(4) as usize };
+        let mut g = Gl { contours, tuples: vec![] };
+        let pts = g.points();
+        let share_sets = rng.chance(1, 2);
+        let mut prev_req: Option<Vec<bool>> = None;
+        for _ in 0..ntup {
+            let tents = gen_tents(rng, axes, pool);
+            let (ax, bx, ay, by) = (rng.range(-3, 3), rng.range(-20, 20), rng.range(-3, 3), rng.range(-20, 20));
+            let div = *rng.pick(&[4i64, 8, 16, 10]);
+            let noise = 2 + rng.below(8) as usize;
+            let big_vals = big || rng.chance(1, 10);
+            let mut deltas: Vec<(i16, i16)> = pts.iter().enumerate().map(|(i, p)| {
+                let mut dx = ax * p.0 as i64 / div + bx;
+                let mut dy = ay * p.1 as i64 / div + by;
+                if i % noise == 0 { dx += rng.range(-9, 9); dy += rng.range(-9, 9); }
+                if big_vals { dx += rng.range(-3000, 3000); dy += rng.range(-3000, 3000); }
+                (dx as i16, dy as i16)
+            }).collect();
+            for i in 0..4 { deltas.push(if i == 1 && rng.chance(1, 2) { (rng.range(-30, 30) as i16, 0) } else { (0, 0) }); }
+            let mode = rng.below(8);
+            if mode == 7 { for d in deltas.iter_mut() { *d = (0, 0); } }
+            let (req, tol): (Vec<bool>, Option<(i64, i64)>) = match mode {
+                0 => (vec![true; npts + 4], None),
+                1 => ((0..npts + 4).map(|_| rng.chance(1, 2)).collect(), None),
+                2 if share_sets && prev_req.is_some() => (prev_req.clone().unwrap(), None),
+                _ => {
+                    let (tn, td) = *rng.pick(&[(0i64, 1i64), (1, 2), (1, 2), (1, 1), (2, 1), (4, 1)]);
+                    let dv: Vec<Vec2> = deltas.iter().map(|d| Vec2::new(d.0 as f64, d.1 as f64)).collect();
+                    let mut cv: Vec<KPoint> = pts.iter().map(|p| KPoint::new(p.0 as f64, p.1 as f64)).collect();
+                    for i in 0..4 { cv.push(KPoint::new(if i == 1 { 500.0 } else { 0.0 }, 0.0)); }
+                    let ends = g.ends();
+                    match catch(move || iup_delta_optimize(dv, cv, tn as f64 / td as f64, &ends)) {
+                        Ok(Ok(v)) => (v.iter().map(|d| d.required).collect(), Some((tn, td))),
+                        _ => (vec![true; npts + 4], None),
+                    }
+                }
+            };
+            prev_req = Some(req.clone());
+            g.tuples.push(Tup { tents, deltas, req, tol });
+        }
+        g
+    }
+
+    fn build_font(glyphs: &[Gl], axes: usize) -> Result<(Vec<u8>, Gvar), String> {
+        use write_fonts::tables::{head::Head, hhea::Hhea, hmtx::Hmtx, hmtx::LongMetric, maxp::Maxp};
+        let mut b = GlyfLocaBuilder::new();
+        let mut vars = vec![];
+        for (gid, g) in glyphs.iter().enumerate() {
+            let pts = g.points();
+            let sg = SimpleGlyph {
+                bbox: Bbox { x_min: pts.iter().map(|p| p.0).min().unwrap(), y_min: pts.iter().map(|p| p.1).min().unwrap(),
+                    x_max: pts.iter().map(|p| p.0).max().unwrap(), y_max: pts.iter().map(|p| p.1).max().unwrap() },
+                contours: g.contours.iter().map(|c| Contour::from(c.iter().map(|p| CurvePoint::new(p.0, p.1, true)).collect::<Vec<_>>())).collect(),
+                instructions: vec![],
+            };
+            b.add_glyph(&Glyph::Simple(sg)).map_err(|e| e.to_string())?;
+            let tuples = g.tuples.iter().map(|t| {
+                let tents = t.tents.iter().map(|(p, i)| Tent::new(F2Dot14::from_bits(*p), i.map(|(a, b)| (F2Dot14::from_bits(a), F2Dot14::from_bits(b))))).collect();
+                let deltas = t.deltas.iter().zip(&t.req).map(|(d, r)| GlyphDelta::new(d.0, d.1, *r)).collect();
+                GlyphDeltas::new(tents, deltas)
+            }).collect();
+            vars.push(GlyphVariations::new(GlyphId::new(gid as u32), tuples));
+        }
+        let (glyf, loca, fmt) = b.build();
+        let gvar = Gvar::new(vars, axes as u16).map_err(|e| e.to_string())?;
+        let n = glyphs.len() as u16;
+        let head = Head { units_per_em: 1000, index_to_loc_format: fmt as i16, ..Default::default() };
+        let maxp = Maxp::new(n);
+        let hhea = Hhea { number_of_h_metrics: n, ..Default::default() };
+        // lsb = xMin, so that skrifa (like FreeType) does not translate the outline by -(xMin - lsb)
+        let hmtx = Hmtx::new(glyphs.iter().map(|g| LongMetric::new(500, g.points().iter().map(|p| p.0).min().unwrap())).collect(), vec![]);
+        let mut fb = write_fonts::FontBuilder::new();
+        fb.add_table(&head).map_err(|e| e.to_string())?;
+        fb.add_table(&maxp).map_err(|e| e.to_string())?;
+        fb.add_table(&hhea).map_err(|e| e.to_string())?;
+        fb.add_table(&hmtx).map_err(|e| e.to_string())?;
+        fb.add_table(&glyf).map_err(|e| e.to_string())?;
+        fb.add_table(&loca).map_err(|e| e.to_string())?;
+        fb.add_table(&gvar).map_err(|e| e.to_string())?;
+        Ok((fb.build(), gvar))
+    }
+
+    fn be16(b: &[u8], o: usize) -> usize { ((b[o] as usize) << 8) | b[o + 1] as usize }
+    fn be32(b: &[u8], o: usize) -> usize { (be16(b, o) << 16) | be16(b, o + 2) }
+
+    pub fn check_font(s: &mut Session, rng: &mut Rng, glyphs: &[Gl], axes: usize, draw: bool) {
+        let desc = || describe(glyphs, axes);
+        let built = catch(|| build_font(glyphs, axes));
+        let (data, wgvar) = match built {
+            Ok(Ok(x)) => x,
+            other => { s.oracle("gvar-build-ok", false, desc, || format!("{:?}", other.map(|r| r.map(|_| ()))));
+                return; }
+        };
+        let font = FontRef::new(&data).unwrap();
+        let gvar_bytes = font.table_data(font_types::Tag::new(b"gvar")).unwrap().as_bytes().to_vec();
+        let gvar = read_fonts::tables::gvar::Gvar::read(FontData::new(&gvar_bytes)).unwrap();
+        // ---- layout: offsets array and data region vs the model
+        let blobs: Vec<Vec<u8>> = wgvar.glyph_variation_data_offsets.iter().zip(glyphs).map(|(gd, g)| {
+            if g.tuples.is_empty() { vec![] } else { write_fonts::dump_table(gd).unwrap() }
+        }).collect();
+        let long = be16(&gvar_bytes, 14) & 1 == 1;
+        let dao = be32(&gvar_bytes, 16);
+        let n = glyphs.len();
+        let offs: Vec<usize> = (0..=n).map(|i| if long { be32(&gvar_bytes, 20 + 4 * i) } else { be16(&gvar_bytes, 20 + 2 * i) }).collect();
+        let shared_off = be32(&gvar_bytes, 8);
+        let data_end = if shared_off >= dao { shared_off } else { gvar_bytes.len() };
+        s.count(if long { "gvar:long-offsets" } else { "gvar:short-offsets" });
+        s.count(if be16(&gvar_bytes, 6) > 0 { "gvar:has-shared-tuples" } else { "gvar:no-shared-tuples" });
+        let total: usize = blobs.iter().map(|b| b.len()).sum();
+        if total <= 6000 || long {
+            s.case("Gvar offsets+data layout",
+                format!("gv.write {}", blobs.iter().map(|b| hex(b)).collect::<Vec<_>>().join(" ")),
+                format!("{} {} | {} | {}", if long { "L" } else { "S" }, dao, join(&offs), hex(&gvar_bytes[dao..data_end])));
+        }
+        for (gid, blob) in blobs.iter().enumerate() {
+            let got = gvar.data_for_gid(GlyphId::new(gid as u32));
+            let want: Option<Vec<u8>> = if blob.is_empty() { None } else {
+                let mut w = blob.clone(); if !long && w.len() % 2 == 1 { w.push(0); } Some(w) };
+            let ok = match (&got, &want) { (Ok(None), None) => true, (Ok(Some(d)), Some(w)) => d.as_bytes() == &w[..], _ => false };
+            s.oracle("gvar-glyph-data-resolves", ok, desc, || format!("gid {gid} long={long} offsets {offs:?} want {:?} got {:?}", want.as_ref().map(|w| hex(w)), got.as_ref().map(|d| d.as_ref().map(|d| hex(d.as_bytes())))));
+            if !blob.is_empty() { s.count(if blob.len() % 2 == 1 { "gvar:glyph-data-odd" } else { "gvar:glyph-data-even" }); } else { s.count("gvar:glyph-data-empty"); }
+        }
+        // ---- read back tuples
+        // explicit[gid][tuple][point] = Some(delta) for deltas present in the file
+        let mut explicit: Vec<Vec<Vec<Option<(i32, i32)>>>> = vec![];
+        for (gid, g) in glyphs.iter().enumerate() {
+            let npts = g.points().len() + 4;
+            let mut per = vec![];
+            let vd = gvar.glyph_variation_data(GlyphId::new(gid as u32));
+            let Ok(vd) = vd else { s.oracle("gvar-readback-ok", false, desc, || format!("gid {gid}: {:?}", vd.as_ref().err())); explicit.push(per); continue };
+            let Some(vd) = vd else {
+                s.oracle("gvar-readback-tuple-count", g.tuples.is_empty(), desc, || format!("gid {gid}: no data"));
+                explicit.push(per); continue };
+            let tuples: Vec<_> = vd.tuples().collect();
+            s.oracle("gvar-readback-tuple-count", tuples.len() == g.tuples.len(), desc, || format!("gid {gid}: {} vs {}", tuples.len(), g.tuples.len()));
+            let hdr_count = be16(vd_bytes(&gvar, gid), 0);
+            s.count(if hdr_count & 0x8000 != 0 { "gvar:glyph-shared-points" } else { "gvar:glyph-no-shared-points" });
+            for (t, spec) in tuples.iter().zip(&g.tuples) {
+                let peak: Vec<i16> = t.peak().values.iter().map(|v| v.get().to_bits()).collect();
+                let want_peak: Vec<i16> = spec.tents.iter().map(|x| x.0).collect();
+                s.oracle("gvar-readback-peak", peak == want_peak, desc, || format!("gid {gid}: {peak:?} vs {want_peak:?}"));
+                let inter = t.intermediate_start().zip(t.intermediate_end()).map(|(a, b)| {
+                    a.values.iter().zip(b.values.iter()).map(|(a, b)| (a.get().to_bits(), b.get().to_bits())).collect::<Vec<_>>() });
+                let implied: Vec<(i16, i16)> = spec.tents.iter().map(|x| (x.0.min(0), x.0.max(0))).collect();
+                let want_inter: Vec<(i16, i16)> = spec.tents.iter().zip(&implied).map(|(x, im)| x.1.unwrap_or(*im)).collect();
+                let eff = inter.clone().unwrap_or(implied.clone());
+                s.oracle("gvar-readback-region", eff == want_inter, desc, || format!("gid {gid}: {inter:?} vs {want_inter:?}"));
+                s.count(if inter.is_some() { "gvar:tuple-intermediate" } else { "gvar:tuple-peak-only" });
+                let all = t.has_deltas_for_all_points();
+                let mut ex: Vec<Option<(i32, i32)>> = vec![None; npts];
+                let mut bad = false;
+                let mut count = 0usize;
+                for d in t.deltas().take(npts + 10) {
+                    count += 1;
+                    match ex.get_mut(d.position as usize) { Some(slot) => *slot = Some((d.x_delta, d.y_delta)), None => bad = true }
+                }
+                let nreq = spec.req.iter().filter(|r| **r).count();
+                s.count(&format!("gvar:tuple-points~{}", if all { "all" } else if nreq == 0 { "none-required" } else { "sparse" }));
+                // explicit set: all points, or exactly the required ones; values as given
+                let set_ok = !bad && (0..npts).all(|k| match ex[k] {
+                    Some(d) => d == (spec.deltas[k].0 as i32, spec.deltas[k].1 as i32) && (all || spec.req[k]),
+                    None => !all && !spec.req[k] }) && count == ex.iter().filter(|e| e.is_some()).count();
+                s.oracle("gvar-readback-deltas", set_ok, desc, || format!("gid {gid} all={all} required {nreq} read {count} deltas {ex:?}"));
+                per.push(ex);
+            }
+            explicit.push(per);
+        }
+        // ---- specification inference on what was read back vs the deltas given to the builder
+        let mut inferred: Vec<Vec<Vec<(iup::Fr, iup::Fr)>>> = vec![];
+        for (gid, g) in glyphs.iter().enumerate() {
+            let pts = g.points();
+            let mut per = vec![];
+            for (ti, spec) in g.tuples.iter().enumerate() {
+                let Some(ex) = explicit.get(gid).and_then(|p| p.get(ti)) else { continue };
+                let mut vals: Vec<(iup::Fr, iup::Fr)> = vec![];
+                let mut start = 0usize;
+                let mut knife = false;
+                for c in &g.contours {
+                    let e = start + c.len() - 1;
+                    let cs: Vec<iup::P> = pts[start..=e].iter().map(|p| (p.0 as i64, p.1 as i64)).collect();
+                    let keep: Vec<bool> = (start..=e).map(|k| ex[k].is_some()).collect();
+                    let ds: Vec<iup::P> = (start..=e).map(|k| ex[k].map(|d| (d.0 as i64, d.1 as i64)).unwrap_or((0, 0))).collect();
+                    let full: Vec<iup::P> = (start..=e).map(|k| (spec.deltas[k].0 as i64, spec.deltas[k].1 as i64)).collect();
+                    if let Some((tn, td)) = spec.tol { knife |= iup::knife_edge(&cs, &full, tn, td); }
+                    for (i, inf) in iup::infer_contour(&cs, &ds, &keep).iter().enumerate() {
+                        vals.push(match inf { None => (iup::Fr(ds[i].0 as i128, 1), iup::Fr(ds[i].1 as i128, 1)), Some(v) => *v });
+                    }
+                    start = e + 1;
+                }
+                for k in start..start + 4 {
+                    vals.push(match ex[k] { Some(d) => (iup::Fr(d.0 as i128, 1), iup::Fr(d.1 as i128, 1)), None => (iup::Fr(0, 1), iup::Fr(0, 1)) });
+                }
+                for k in 0..vals.len() {
+                    let d = (spec.deltas[k].0 as i64, spec.deltas[k].1 as i64);
+                    if spec.req[k] {
+                        let exact = vals[k].0 .0 == d.0 as i128 * vals[k].0 .1 && vals[k].1 .0 == d.1 as i128 * vals[k].1 .1;
+                        s.oracle("gvar-required-delta-exact", exact, desc, || format!("gid {gid} tuple {ti} point {k}: {:?} vs {d:?}", vals[k]));
+                    } else if let Some((tn, td)) = spec.tol {
+                        let exs = iup::excess(d, vals[k].0, vals[k].1, tn, td);
+                        if !knife {
+                            s.oracle("gvar-optional-delta-within-tolerance", exs <= 1e-9, desc, || format!("gid {gid} tuple {ti} point {k}: inferred {:?} vs {d:?} tol {tn}/{td} excess {exs}", vals[k]));
+                        } else { s.count("gvar:knife-edge-skipped"); }
+                    }
+                }
+                per.push(vals);
+            }
+            inferred.push(per);
+        }
+        if !draw { return; }
+        // ---- draw at locations on and off the region boundaries
+        let mut locs: Vec<Vec<i16>> = vec![vec![0; axes], vec![16384; axes], vec![-16384; axes]];
+        for g in glyphs { for t in &g.tuples {
+            locs.push(t.tents.iter().map(|x| x.0).collect());
+            if let Some(l) = t.tents.iter().map(|x| x.1.map(|i| i.0)).collect::<Option<Vec<i16>>>() { locs.push(l); }
+        } }
+        for _ in 0..4 { locs.push((0..axes).map(|_| if rng.chance(1, 4) { 0 } else { rng.range(-16384, 16384) as i16 }).collect()); }
+        locs.truncate(12);
+        let outlines = font.outline_glyphs();
+        for loc in &locs {
+            let coords: Vec<F2Dot14> = loc.iter().map(|b| F2Dot14::from_bits(*b)).collect();
+            for (gid, g) in glyphs.iter().enumerate() {
+                let Some(inf) = inferred.get(gid) else { continue };
+                if inf.len() != g.tuples.len() { continue; }
+                let pts = g.points();
+                // exact expectation per point
+                let mut want: Vec<(f64, f64)> = pts.iter().map(|p| (p.0 as f64, p.1 as f64)).collect();
+                let mut active = 0;
+                for (t, vals) in g.tuples.iter().zip(inf) {
+                    let (sn, sd) = scalar(&t.tents, loc);
+                    if sn == 0 { continue; }
+                    active += 1;
+                    for k in 0..pts.len() {
+                        want[k].0 += (sn * vals[k].0 .0) as f64 / (sd * vals[k].0 .1) as f64;
+                        want[k].1 += (sn * vals[k].1 .0) as f64 / (sd * vals[k].1 .1) as f64;
+                    }
+                }
+                s.count(&format!("draw:active-tuples~{}", active.min(3)));
+                for (style, tol) in [(skrifa::outline::pen::PathStyle::FreeType, 0.5 + 0.05), (skrifa::outline::pen::PathStyle::HarfBuzz, 0.05)] {
+                    let og = outlines.get(GlyphId::new(gid as u32)).unwrap();
+                    let mut pen = PtPen(vec![], 0);
+                    let r = catch(|| og.draw(skrifa::outline::DrawSettings::unhinted(skrifa::instance::Size::unscaled(), skrifa::instance::LocationRef::new(&coords)).with_path_style(style), &mut pen).map(|_| ()).map_err(|e| e.to_string()));
+                    let input = || format!("loc {loc:?} gid {gid} style {style:?} :: {}", desc());
+                    s.oracle("draw-ok", matches!(r, Ok(Ok(()))), input, || format!("{r:?}"));
+                    if !matches!(r, Ok(Ok(()))) { continue; }
+                    if pen.0.len() != pts.len() || pen.1 != 0 { s.count("draw:point-count-differs-skipped"); continue; }
+                    let worst = pen.0.iter().zip(&want).map(|(g, w)| (g.0 as f64 - w.0).abs().max((g.1 as f64 - w.1).abs())).fold(0.0f64, f64::max);
+                    s.oracle("draw-equals-default-plus-scaled-deltas", worst <= tol, input,
+                        || format!("worst deviation {worst} (allowed {tol}); drawn {:?} expected {:?}", pen.0, want));
+                }
+            }
+        }
+    }
+
+    fn vd_bytes<'a>(gvar: &read_fonts::tables::gvar::Gvar<'a>, gid: usize) -> &'a [u8] {
+        gvar.data_for_gid(GlyphId::new(gid as u32)).unwrap().unwrap().as_bytes()
+    }
+
+    /// reader range resolution on crafted headers: arbitrary stored offsets, both formats
+    fn range_cases(s: &mut Session, rng: &mut Rng, n: usize) {
+        for _ in 0..n {
+            let long = rng.chance(1, 2);
+            let ng = 1 + rng.below(4) as usize;
+            let unit = if long { 4 } else { 2 };
+            let dao_true = 20 + (ng + 1) * unit;
+            let extra = 8 + rng.below(120) as usize;
+            let tlen = dao_true + extra;
+            let dao: u32 = match rng.below(12) { 0 => 0xFFFF_FFF0, 1 => rng.below(tlen as u64 + 8) as u32, _ => dao_true as u32 };
+            let mut offs: Vec<u32> = vec![];
+            let mut cur = 0u32;
+            for _ in 0..=ng {
+                offs.push(match rng.below(16) { 0 => rng.below(60) as u32, 1 if long => 0xFFFF_FFFF - rng.below(32) as u32, 1 => 0xFFFF - rng.below(4) as u32, _ => cur });
+                cur += rng.below(if long { 12 } else { 6 }) as u32;
+            }
+            let mut t: Vec<u8> = vec![0, 1, 0, 0];
+            t.extend_from_slice(&1u16.to_be_bytes());
+            t.extend_from_slice(&0u16.to_be_bytes());
+            t.extend_from_slice(&(tlen as u32).to_be_bytes());
+            t.extend_from_slice(&(ng as u16).to_be_bytes());
+            t.extend_from_slice(&(long as u16).to_be_bytes());
+            t.extend_from_slice(&dao.to_be_bytes());
+            for o in &offs { if long { t.extend_from_slice(&o.to_be_bytes()); } else { t.extend_from_slice(&(*o as u16).to_be_bytes()); } }
+            t.resize(tlen, 0xAA);
+            let gid = if rng.chance(1, 8) { rng.below(ng as u64 + 2) as u32 } else { rng.below(ng as u64) as u32 };
+            let r = catch(|| {
+                let gvar = read_fonts::tables::gvar::Gvar::read(FontData::new(&t)).map_err(|e| e.to_string())?;
+                Ok::<_, String>(match gvar.data_for_gid(GlyphId::new(gid)) {
+                    Ok(None) => "none".to_string(),
+                    Ok(Some(d)) => { let st = d.as_bytes().as_ptr() as usize - t.as_ptr() as usize; format!("{} {}", st, st + d.len()) }
+                    Err(_) => "err".to_string(),
+                })
+            });
+            let canon = match r { Ok(Ok(v)) => v, Ok(Err(e)) => format!("readerr:{e}"), Err(_) => "trap".into() };
+            s.oracle("gvar-data-for-gid-total", canon != "trap", || hex(&t), || canon.clone());
+            s.count(&format!("gvar-range:{}", canon.split(' ').count().min(2).to_string() + if canon == "none" { "none" } else if canon == "err" { "err" } else { "range" }));
+            s.case("Gvar::data_for_gid(range)", format!("gv.range {} {} {} {} | {}", long as u8, dao, tlen, gid, join(&offs.iter().map(|o| if long { *o } else { *o & 0xFFFF }).collect::<Vec<_>>())), canon);
+        }
+    }
+
+    pub fn run(cfg: &Config, s: &mut Session, rng: &mut Rng) {
+        range_cases(s, rng, if cfg.thorough() { 20000 } else { 3000 });
+        // a tuple without any required delta next to an ordinary one (was written as an empty
+        // point list = "all points" with no deltas, which made skrifa drop the glyph's variations)
+        let tri = vec![vec![(100i16, 100i16), (300, 100), (200, 300)]];
+        let t1 = Tup { tents: vec![(16384, None)], deltas: vec![(10, 0), (20, 5), (-7, 9), (0, 0), (0, 0), (0, 0), (0, 0)], req: vec![true, true, true, false, false, false, false], tol: None };
+        let t2 = Tup { tents: vec![(16384, None)], deltas: vec![(0, 0); 7], req: vec![false; 7], tol: Some((1, 2)) };
+        check_font(s, rng, &[Gl { contours: tri.clone(), tuples: vec![t1.clone(), t2.clone()] }], 1, true);
+        check_font(s, rng, &[Gl { contours: tri.clone(), tuples: vec![t2] }, Gl { contours: tri, tuples: vec![t1] }], 1, true);
+        let n = if cfg.thorough() { 2500 } else { 250 };
+        for _ in 0..n {
+            let axes = 1 + rng.below(3) as usize;
+            let ng = 1 + rng.below(5) as usize;
+            let mut pool = vec![];
+            let glyphs: Vec<Gl> = (0..ng).map(|_| gen_glyph(rng, axes, &mut pool, false)).collect();
+            check_font(s, rng, &glyphs, axes, true);
+        }
+        // big fonts: enough variation data for long offsets
+        let nbig = if cfg.thorough() { 6 } else { 2 };
+        for i in 0..nbig {
+            let axes = 2;
+            let mut pool = vec![];
+            let ng = if i % 2 == 0 { 46 } else { 30 };
+            let glyphs: Vec<Gl> = (0..ng).map(|_| { let mut g = gen_glyph(rng, axes, &mut pool, true);
+                while g.tuples.len() < 3 { let mut h = gen_glyph(rng, axes, &mut pool, true); h.contours = g.contours.clone();
+                    if let Some(t) = h.tuples.pop() { if t.deltas.len() == g.points().len() + 4 { g.tuples.push(t); } } }
+                g }).collect();
+            check_font(s, rng, &glyphs, axes, false);
+        }
+    }
+}
+
 fn run(cfg: &Config, s: &mut Session) {
     let mut rng = Rng::new(cfg.seed);
     packed::run(cfg, s, &mut rng);
     iup::run(cfg, s, &mut rng);
+    reader::run(cfg, s, &mut rng);
+    e2e::run(cfg, s, &mut rng);
 }
 
 fn main() {
